@@ -65,7 +65,7 @@ def rule_flatten(ctx):
             base.append(p)
         elif v[0] == 'call' and T.call_name(v) == 'flatten':
             rec.append(p)
-        else:
+        elif v != SELF:
             ctx.undecide('R1', 'flatten: unrecognised result %s' % T.show(v)[:100])
     if not base:
         ctx.violated('R1', fi, 'base case', 'flatten never regroups the values')
@@ -156,6 +156,53 @@ def rule_flatten(ctx):
             ctx.violated('R3', fi, 'transpose = ' + T.show(tr)[:140], 'the recursive case transposes to rest[:insert] + dims + rest[insert:]', node=p.node)
             continue
         ctx.holds('R3', 'flatten recursion: transpose then flatten(dims, insert=min(insert, ndim - n))')
+    # the insertion point: insert= when given (0 included), else the position of the first listed dimension; clamped to ndim - n.
+    # Bounded integer check of the insertion-point term of every path against that definition.
+    from ..rules import int_eval, bool_eval
+    INS = ('call', ('attr', P_('**kwargs'), 'pop'), (const('insert'), T.CONST_NONE), ())
+    II = ('call', ('attr', ('attr', SELF, 'dims'), 'index'), (('sub', DIMS, const(0)),), ())
+    bad_ins = None
+    nins = 0
+    for p in base + rec:
+        g = contig_guard(p)
+        if not g:
+            continue
+        ins = g[-1][0][1]
+        for ndim, n, ii, insert in [(nd, nn, i, k) for nd in (3, 4) for nn in (1, 2) for i in range(0, nd - nn + 1) for k in (None, 0, 1, 2, 3)]:
+            atoms = {INS: insert, II: ii, ('attr', SELF, 'ndim'): ndim, NLEN: n}
+            feas = True
+            for a, pol in p.guards:
+                if a == T.mkcmp('is', INS, T.CONST_NONE):
+                    if (insert is None) != pol:
+                        feas = False
+                elif T.contains(a, INS) and a[0] != 'cmp':
+                    r = int_eval(a, atoms)
+                    if r is not None and bool(r) != pol:
+                        feas = False
+            if not feas:
+                continue
+            got = int_eval(ins, atoms)
+            want = min(ii if insert is None else insert, ndim - n)
+            nins += 1
+            if got is None:
+                ctx.undecide('R3', 'flatten: insertion point %s not evaluable' % T.show(ins)[:80])
+                bad_ins = 'undecided'
+                break
+            if got != want and bad_ins is None:
+                bad_ins = (ndim, n, ii, insert, got, want)
+        if bad_ins == 'undecided':
+            break
+    if bad_ins and bad_ins != 'undecided':
+        ndim, n, ii, insert, got, want = bad_ins
+        ctx.violated('R3', fi, 'flatten insertion point', 'for a %d-d array, %d grouped dimension(s) starting at position %d and insert=%r the group is placed at position %s instead of %d '
+                     '(an explicit insert=0 - what a tuple axis of a reduction passes - must not be taken for "not given")' % (ndim, n, ii, insert, got, want), node=fi.node)
+    elif not bad_ins and nins:
+        ctx.holds('R3', 'flatten: insertion point = min(insert if given else position of dims[0], ndim - n) (%d cases)' % nins)
+    # a path that hands the array back untouched ignores both the grouping and insert=
+    for p in rets:
+        if p.value == SELF:
+            ctx.violated('R1', fi, 'flatten returns its input unchanged', 'flatten returns `self` on a path (%s): the requested insert position is ignored, so a reduction over a one-element '
+                         'tuple of dimensions reduces the first dimension instead' % '; '.join('%s=%s' % (T.show(a)[:40], pol) for a, pol in p.guards[-2:]), node=p.node)
     # _flatten: 'ij' + ravel
     fl = ctx.fn(AX + '_flatten')
     ev = run(ctx, fl, mode='join')
@@ -241,6 +288,16 @@ def rule_unflatten(ctx):
             else:
                 ctx.violated('R3', fi, e.node, 'unflatten(None) must expand the grouped axes one after the other on the accumulated result', node=e.node)
                 okr = None
+    # ... and the grouped axes are designated by *name*, collected before the loop: expanding a group of k members shifts every later position by k - 1
+    for p in ret_paths(ev):
+        for e in p.calls('unflatten'):
+            ax_arg = T.kw(e.a, 'axis') or (e.a[2][0] if e.a[2] else None)
+            by_name = ax_arg is not None and ax_arg[0] == 'elem' and ax_arg[1][0] == 'comp' and ax_arg[1][2][0] == 'attr' and ax_arg[1][2][2] == 'name' \
+                and ax_arg[1][3][0][1] == ('attr', SELF, 'axes')
+            if not by_name and okr:
+                ctx.violated('R3', fi, 'unflatten(None) loop', 'the grouped axes must be listed by name before the loop ([ax.name for ax in self.axes if MultiAxis]); iterating over positions '
+                             '(of the original array) misses the groups that were shifted by an earlier expansion: %s' % T.show(ax_arg)[:80], node=e.node)
+                okr = None
     if okr:
         ctx.holds('R3', 'unflatten(None): obj = obj.unflatten(axis) for every grouped axis')
 
@@ -273,6 +330,24 @@ def rule_reshape(ctx):
             if g != [False]:
                 ctx.violated('R4', fi, e.node, 'a dimension is squeezed only if it is not among the requested ones', node=e.node)
                 ok = False
+    # (path-sensitive: every way of reaching the squeeze call, not only the merged state)
+    try:
+        evf = run(ctx, fi, mode='fork', max_paths=20000, oracle=lambda a, st: (False if (a[0] == 'cmp' and a[1] == '==' and 'len(' in T.show(a) and a[3] == const(1)) else None))
+        sq = {}
+        for q in evf.paths:
+            for e in q.calls('squeeze'):
+                a = e.a[2]
+                if len(a) == 1 and a[0][0] == 'elem':
+                    g = tuple(pol for x, pol in e.guards if x[0] == 'cmp' and x[1] == 'in' and x[2] == a[0])
+                    sq.setdefault(g, e)
+        for g, e in sq.items():
+            if g != (False,):
+                extra = [T.show(x)[:50] for x, pol in e.guards if not (x[0] == 'cmp' and x[1] == 'in')][-2:]
+                ctx.violated('R4', fi, 'squeeze of a requested dimension', 'reshape squeezes a dimension on a path where it *is* among the requested ones (extra condition: %s): a wanted '
+                             'size-1 dimension is dropped and re-inserted as a dummy [None] axis, losing its label' % '; '.join(extra), node=e.node)
+                ok = False
+    except AnalysisError as ex:
+        ctx.undecide('R4', 'reshape (fork mode): %s' % ex)
     for e in p.calls('newaxis'):
         a = e.a
         if not (len(a[2]) == 1 and a[2][0][0] == 'elem' and T.kw(a, 'pos') == ('idx', a[2][0][1], a[2][0][2])):
